@@ -10,7 +10,7 @@ from .. import cfgdom as G
 from .. import pdadom as P
 from .. import rxdom as X
 from . import c16
-from ..core import CaseResult, outcome
+from ..core import CaseResult, outcome, case_key
 
 ID = "C20"
 LEVEL = "other"
@@ -22,7 +22,11 @@ RULE = ("random automata / PDAs / FSTs with JSON-representable state and symbol 
         "whose boxes are compared, by the verified equivalence oracle, with the union of the alternatives of each "
         "head. Non-trivial: machine with >=2 states and >=2 transitions / grammar with >=2 productions.")
 EXPLANATION = 'Round trips are decided structurally (canonical form of the re-imported object equals that of the original) and, for grammars and recursive automata, by the verified membership / equivalence oracles; the networkx graph container and the json module are exercised, not modelled. The token-level text codec of grammars (Variable.to_text, Terminal.to_text, the component classification of CFG._read_line) is modelled in Lean (Pfl/Model/Codec.lean), proved to round-trip every plain token (read_varToText, read_terToText) and compared with the implementation on random ASCII tokens.'
-THEOREMS = ["Pfl.Codec.read_varToText",
+THEOREMS = ["Pfl.LabelCodec.readPdaLabel_pdaLabel",
+            "Pfl.LabelCodec.readFstLabel_fstLabel",
+            "Pfl.LabelCodec.readPdaLabel_pdaLabel_clear",
+            "Pfl.LabelCodec.readFstLabel_fstLabel_clear",
+            "Pfl.Codec.read_varToText",
             "Pfl.Codec.read_terToText",
             "Pfl.Codec.read_capitalised_unmarked",
             "Pfl.CFG.cfgMem_iff",
@@ -97,6 +101,56 @@ def codec_tie(toks, drv, res):
                            detail={"token": tok, "impl": [vt, tt, rd], "model": m})
 
 
+SPLIT_ALPHA = [" ", " ", "-", ">", "/", "a", '"', "[", "]", ","]
+
+
+def label_tie(pda, fst, sseed, drv, res):
+    """edge-label codec of to_networkx / from_networkx against Pfl/Model/LabelCodec.lean"""
+    import json
+    import random
+    rng = random.Random(sseed)
+    # str.split itself, on texts full of near-separators
+    for sep in (" -> ", " / "):
+        texts = ["".join(rng.choice(SPLIT_ALPHA) for _ in range(rng.randint(0, 9))) for _ in range(6)]
+        texts += [rng.choice(texts) + sep + rng.choice(texts) for _ in range(3)]
+        m = drv.call("lab.split", sep=sep, texts=texts)
+        res.corr += len(texts)
+        for t, mm in zip(texts, m):
+            if t.split(sep) != mm:
+                res.corr_break("networkx.label", "str.split differs from the model", detail={"text": t, "sep": sep,
+                                                                                             "python": t.split(sep), "model": mm})
+                return
+    if pda is not None:
+        g = pda.to_networkx()
+        labels = sorted(d["label"] for _, _, d in g.edges(data=True) if "label" in d)
+        parts = []
+        for key, value in pda._transition_function:  # pylint: disable=protected-access
+            s_from, a, x = key
+            _, push = value
+            parts.append([json.dumps(a.value), json.dumps(x.value), json.dumps([y.value for y in push])])
+        m = drv.call("lab.pda", parts=parts)
+        res.corr += len(parts)
+        if sorted(e["label"] for e in m) != labels:
+            res.corr_break("pda.networkx", "edge labels differ from the model",
+                           detail={"impl": labels, "model": sorted(e["label"] for e in m)})
+        for pt, e in zip(parts, m):
+            if e["read"] != pt:
+                res.tag("label_not_read_back")
+    if fst is not None:
+        g = fst.to_networkx()
+        labels = sorted(d["label"] for _, _, d in g.edges(data=True) if "label" in d)
+        parts = []
+        for (s_from, a), outs in fst._delta.items():  # pylint: disable=protected-access
+            for s_to, out in outs:
+                parts.append([json.dumps(a), json.dumps(out)])
+        m = drv.call("lab.fst", parts=parts)
+        res.corr += len(parts)
+        if sorted(e["label"] for e in m) != labels:
+            res.corr_break("fst.networkx", "edge labels differ from the model",
+                           detail={"impl": labels, "model": sorted(e["label"] for e in m)})
+    res.tag("label_tie")
+
+
 def generate(rng, tier):
     while True:
         fa = F.gen_fa(rng, max_states=4, pool=rng.choice(["int", "str"]))
@@ -152,6 +206,7 @@ def run_case(case, drv):
                               scope=(["isolated_states"] if not (set(lost) & mentioned) else []))
     # ---- PDA -------------------------------------------------------------------------------------
     st, pda = outcome(lambda: P.build(case["pda"]))
+    st_pda = st
     if st == "ok":
         p = P.extract(pda)
         got = outcome(lambda: P.extract(PDA.from_networkx(pda.to_networkx())))
@@ -195,6 +250,8 @@ def run_case(case, drv):
                                   detail={"text": cfg.to_text(), "before": g["prods"], "after": r["prods"]})
     if case.get("toks"):
         codec_tie(case["toks"], drv, res)
+        st_l, _ = outcome(lambda: label_tie(pda if st_pda == "ok" else None, t if st == "ok" else None,
+                                            int(case_key(case), 16), drv, res), limit=8.0)
     # ---- recursive automata ----------------------------------------------------------------------
     lines = case["ebnf"]
     text = "\n".join("%s -> %s" % (h, b) for h, b in lines)
